@@ -14,6 +14,7 @@ import XlModel.Lemmas.DateCount
 import XlModel.Lemmas.DateOrder
 import XlModel.Lemmas.DateFloat
 import XlModel.Lemmas.DateFloatDec
+import XlModel.Lemmas.DateGlue
 
 namespace XlModel.Props.C19
 open XlModel XlModel.Date XlModel.Date.Impl
@@ -583,6 +584,126 @@ theorem serial_roundtrip_float (R : Rounding2) (c : Civil) (off : Int) (date1904
     · simp only [Bool.false_eq_true, if_false]; omega
     · simp only [if_true]; omega
   rw [hinst, civilOf_instantOf c.y c.m c.d c.h c.mi c.s hv h0 h1 m0 m1 s0 s1, ← hc]
+
+/-- the round trip through the float path stated on the EXPORTED decoder: `ExcelDateToTime` (its
+`< 0` guard as a float64 comparison, `Impl.excelDateToTimeF`, tied by the `edt` transcript op) accepts
+the stored float and returns the original wall clock -/
+theorem serial_roundtrip_api (R : Rounding2) (c : Civil) (off : Int) (date1904 : Bool) (hw : ValidWall c)
+    (hr : if date1904 then -24107 ≤ daysFromCivil c.y c.m c.d else -25508 ≤ daysFromCivil c.y c.m c.d)
+    (hr2 : daysFromCivil c.y c.m c.d ≤ 2932896) :
+    setCellTime (instantOf c - off * nsPerSec) off date1904 = .num (timeToExcelTimeNs (instantOf c) date1904) ∧
+    (excelDateToTimeF (ratOps2 R) (timeToExcelTimeF (ratOps R.toRounding) (instantOf c) date1904) date1904).map civilOf
+      = .ok c := by
+  obtain ⟨h1, h2, h3⟩ := serial_roundtrip_float R c off date1904 hw hr hr2
+  refine ⟨h1, ?_⟩
+  unfold excelDateToTimeF
+  have hlt : (ratOps2 R).lt (timeToExcelTimeF (ratOps R.toRounding) (instantOf c) date1904) ((ratOps2 R).ofInt 0) = false := by
+    show decide (_ < R.rnd ((0 : Int) : Rat)) = false
+    rw [rnd_zero R.toRounding]
+    simp only [Int.cast_zero, decide_eq_false_iff_not, not_lt]
+    exact h2
+  rw [hlt]
+  simp only [Bool.false_eq_true, if_false, Except.map]
+  rw [h3]
+
+/-! ## glue: the workbook's date-system flag, the default style, Duration cells -/
+
+/-- the glue functions are the transcribed ones: the flag is read from `wb.WorkbookPr.Date1904` when
+present, `setCellTime` gets that flag, the default style is applied only `if isNum`, style index 0
+gets a fresh style and any other style is copied with `NumFmt` replaced, the number-format choice
+and `setCellDuration`'s float32 formatting are as modelled -/
+theorem skeleton_glue_ok :
+    "if wb != nil && wb.WorkbookPr != nil" ∈ Facts.C19.condsSetCellTimeFunc ∧
+    "if isNum" ∈ Facts.C19.condsSetCellTimeFunc ∧
+    "if styleIdx == 0" ∈ Facts.C19.condsSetDefaultTimeStyle ∧
+    Facts.C19.condsGetTimeNumFmt =
+      ["if t.Day() == 1 && nextMonth.Day() == 1",
+       "if t.Hour() == 0 && t.Minute() == 0 && t.Second() == 0 && t.Nanosecond() == 0"] ∧
+    Facts.C19.condsGetDurationNumFmt = ["if d >= time.Hour*24", "if d.Minutes() == float64(int(d.Minutes()))"] ∧
+    Facts.C19.stmtsGlue =
+      ["setCellTimeFunc: date1904 = wb.WorkbookPr.Date1904",
+       "setCellTimeFunc: isNum, err = c.setCellTime(value, date1904)",
+       "getTimeNumFmt: nextMonth := t.AddDate(0, 1, 0)", "getTimeNumFmt: return 17", "getTimeNumFmt: return 14",
+       "getTimeNumFmt: return 22", "getDurationNumFmt: return 46", "getDurationNumFmt: return 20",
+       "getDurationNumFmt: return 21",
+       "setCellDuration: v = strconv.FormatFloat(value.Seconds()/86400, 'f', -1, 32)",
+       "setDefaultTimeStyle: styleIdx, _ = f.NewStyle(&Style{NumFmt: format})",
+       "setDefaultTimeStyle: style.NumFmt = format", "setDefaultTimeStyle: styleIdx, _ = f.NewStyle(style)"] := by
+  decide
+
+/-- "as SetCellValue stores it": the serial a cell gets is computed with the WORKBOOK's date-system
+flag (1900 system when the workbook has no properties), whatever style the cell had -/
+theorem cell_uses_workbook_flag (wb : Option Bool) (cur : Option CellStyle) (utc off : Int) (wall : Civil) :
+    (setCellTimeFunc wb cur utc off wall).1 = setCellTime utc off (wb.getD false) := by
+  unfold setCellTimeFunc
+  cases wb <;> simp only [Option.getD] <;> split <;> rename_i h <;> rw [h]
+
+/-- written and read with the same workbook flag, a wall clock of the range comes back; read with the
+other flag it comes back shifted by exactly 1462 days (the distance of the two epochs) — for every x
+within `decTol` of the exact serial -/
+theorem flag_mismatch_shift (x : Rat) (D k : Int) (hD0 : 0 ≤ D) (hk0 : 0 ≤ k) (hk : k < 86400)
+    (hx : |x - ((D : Rat) + (k : Rat) / 86400)| ≤ decTol D) :
+    timeFromExcelTime x true = timeFromExcelTime x false + 1462 * nsPerDay := by
+  rw [decode_tolerant x true D k hD0 hk0 hk hx, decode_tolerant x false D k hD0 hk0 hk hx]
+  obtain ⟨e0, e4, _, _⟩ := epochs_ok
+  simp only [if_true, Bool.false_eq_true, if_false]
+  have hnd : nsPerDay = 86400000000000 := by decide
+  rw [e0, e4, hnd]; omega
+
+/-- the default style: number format 17 on the first of a month, else 14 at midnight, else 22; applied
+only when a number was stored; a cell without style gets exactly that format -/
+theorem default_style (wb : Option Bool) (utc off : Int) (wall : Civil) (hv : ValidDate wall.y wall.m wall.d) (n : Int)
+    (hnum : setCellTime utc off (wb.getD false) = .num n) :
+    (setCellTimeFunc wb none utc off wall).2 =
+      some { numFmt := if wall.d = 1 then 17 else if wall.h = 0 ∧ wall.mi = 0 ∧ wall.s = 0 ∧ wall.ns = 0 then 14 else 22,
+             custom := false, bold := false } := by
+  unfold setCellTimeFunc
+  cases wb <;> simp only [Option.getD] at hnum <;>
+    simp only [hnum, setDefaultTimeStyle, getTimeNumFmt_eq wall hv]
+
+/-- an existing style keeps everything but its built-in number format; a custom number format is
+kept as it is; and when text is stored (before the first instant of the system) the style is untouched -/
+theorem existing_style_kept (wb : Option Bool) (st : CellStyle) (utc off : Int) (wall : Civil) :
+    (∀ n, setCellTime utc off (wb.getD false) = .num n →
+      ∃ st', (setCellTimeFunc wb (some st) utc off wall).2 = some st' ∧ st'.bold = st.bold ∧ st'.custom = st.custom ∧
+        (st.custom = true → st' = st) ∧ (st.custom = false → st'.numFmt = getTimeNumFmt wall)) ∧
+    (setCellTime utc off (wb.getD false) = .text → (setCellTimeFunc wb (some st) utc off wall).2 = some st) := by
+  cases wb <;> simp only [Option.getD] <;> constructor
+  all_goals first
+    | (intro n hnum
+       unfold setCellTimeFunc
+       simp only [hnum, setDefaultTimeStyle]
+       by_cases hc : st.custom = true
+       · rw [if_pos hc]; exact ⟨st, rfl, rfl, rfl, fun _ => rfl, fun h => by rw [hc] at h; cases h⟩
+       · rw [if_neg hc]
+         exact ⟨_, rfl, rfl, rfl, fun h => absurd h hc, fun _ => rfl⟩)
+    | (intro htext
+       unfold setCellTimeFunc
+       simp only [htext])
+
+/-- Duration cells (`setCellDuration`: seconds/86400 formatted with float32 precision): every
+whole-second duration below 2²² s = 48.5 days is identified to the second by every value within
+the float32 tolerance (relative 2⁻²³, measured on every `dur` line); number format 46 `[h]:mm:ss`
+from 24 h, 20 for whole minutes, else 21.  `_partial`: beyond ≈ 48 days the float32 text no longer
+determines the second (`duration_bound_sharp`: 200 days + 1 s may read 2 s late) -/
+theorem duration_roundtrip_partial (k : Int) (x : Rat) (hk0 : 0 ≤ k) (hk : k < 4194304)
+    (hx : |x - durationSerial (k * 1000000000)| ≤ durTol (k * 1000000000)) :
+    ⌊x * 86400 + 1 / 2⌋ = k ∧
+    getDurationNumFmt (k * 1000000000) = (if k ≥ 86400 then 46 else if k % 60 = 0 then 20 else 21) := by
+  refine ⟨duration_nearest_second k x hk0 hk hx, ?_⟩
+  rw [getDurationNumFmt_eq]
+  by_cases h : k ≥ 86400
+  · rw [if_pos (by omega), if_pos h]
+  · rw [if_neg (by omega), if_neg h]
+    by_cases h2 : k % 60 = 0
+    · rw [if_pos (by omega), if_pos h2]
+    · rw [if_neg (by omega), if_neg h2]
+
+/-- the hypothesis `k < 2²²` of `duration_roundtrip_partial` cannot simply be dropped -/
+theorem duration_precision_witness :
+    ∃ x : Rat, |x - durationSerial (17280001 * 1000000000)| ≤ durTol (17280001 * 1000000000) ∧
+      ⌊x * 86400 + 1 / 2⌋ = 17280003 :=
+  duration_bound_sharp
 
 /-- FIXED (known_findings.d key `enc:zero-serial-stored-as-text`): in the 1904 system the first
 instant of the range, 1904-01-01T00:00:00, read in any zone, is now stored as the number 0 (it used to
